@@ -72,7 +72,7 @@ Definition prefixlvl (t : token) : nat :=
 Definition is_first (t : token) : bool :=
   match t with
   | TNumber _ | TIntBase _ _ | TNaN | TInf | TIdent _ | TQuestionMark | TTrue | TFalse | TString _
-  | TLParen | TMinus | TPlus | TExcl | TIf => true
+  | TLParen | TLBracket | TMinus | TPlus | TExcl | TIf => true
   | _ => false
   end.
 
@@ -205,6 +205,8 @@ Qed.
 Fixpoint depth (t : sx) : nat :=
   match t with
   | SParen e => S (depth e)
+  | SList es => S (list_max (map depth es))
+  | SStruct _ fields => S (list_max (map (fun fe => depth (snd fe)) fields))
   | SCall f args => Nat.max (depth f) (S (list_max (map depth args)))
   | SField e _ | SUPow e _ | SFact e _ | SNeg e | SPos e | SNot e => depth e
   | SPow a _ b | SIMul a b | SBin _ a b | SApply a b => Nat.max (depth a) (depth b)
@@ -216,6 +218,8 @@ Fixpoint size (t : sx) : nat :=
   match t with
   | SParen e | SField e _ | SUPow e _ | SFact e _ | SNeg e | SPos e | SNot e => S (size e)
   | SCall f args => S (size f + list_sum (map size args))
+  | SList es => S (list_sum (map size es))
+  | SStruct _ fields => S (list_sum (map (fun fe => size (snd fe)) fields))
   | SPow a _ b | SIMul a b | SBin _ a b | SApply a b => S (size a + size b)
   | SIf c t e => S (size c + size t + size e)
   | _ => 1
@@ -229,6 +233,18 @@ Qed.
 Lemma depth_in : forall (a : sx) args, In a args -> depth a <= list_max (map depth args).
 Proof.
   induction args; simpl; intros H; [tauto|]. destruct H as [->|H]; [lia|]. specialize (IHargs H). lia.
+Qed.
+
+Lemma size_in_fields : forall (f : str) (a : sx) fields, In (f, a) fields ->
+  size a <= list_sum (map (fun fe => size (snd fe)) fields).
+Proof.
+  induction fields; simpl; intros H; [tauto|]. destruct H as [->|H]; [simpl; lia|]. specialize (IHfields H). lia.
+Qed.
+
+Lemma depth_in_fields : forall (f : str) (a : sx) fields, In (f, a) fields ->
+  depth a <= list_max (map (fun fe => depth (snd fe)) fields).
+Proof.
+  induction fields; simpl; intros H; [tauto|]. destruct H as [->|H]; [simpl; lia|]. specialize (IHfields H). lia.
 Qed.
 
 (* ---- follow sets *)
@@ -461,6 +477,110 @@ Proof.
     + cbn [bind]. rewrite arguments_loop_ok; [reflexivity| |lia].
       intros b Hb. apply HA. right. exact Hb.
     + destruct r; cbn [tailp app]; apply follow_tok; simpl; auto.
+Qed.
+
+Lemma pr_list : forall es, pr (SList es) = TLBracket :: pr_args es ++ [TRBracket].
+Proof. reflexivity. Qed.
+
+Lemma pr_struct : forall n fields, pr (SStruct n fields) = TIdent n :: TLCurly :: pr_fields fields ++ [TRCurly].
+Proof. reflexivity. Qed.
+
+Lemma list_loop_first : forall ex n els tok r, is_first tok = true ->
+  list_loop ex (S n) els (tok :: r) =
+  bind (ex (tok :: r)) (fun e rest =>
+    match skip_empty_lines rest with
+    | TComma :: r' => list_loop ex n (els ++ [e]) (skip_empty_lines r')
+    | TRBracket :: r' => list_loop ex n (els ++ [e]) (skip_empty_lines (TRBracket :: r'))
+    | _ => Err ExpectedCommaOrRightBracketInList
+    end).
+Proof. intros ex n els tok r H. destruct tok; try discriminate; reflexivity. Qed.
+
+Lemma list_loop_ok : forall d es rest acc n,
+  (forall a, In a es -> wf a = true /\ P d a 0) ->
+  S (length (pr_args es ++ TRBracket :: rest)) <= n ->
+  list_loop (expression_d (S d)) n acc (pr_args es ++ TRBracket :: rest) = Ok (EList (acc ++ map desugar es)) rest.
+Proof.
+  induction es as [|a r IH]; intros rest acc n HA Hn.
+  - destruct n; [simpl in Hn; lia|]. simpl. rewrite app_nil_r. reflexivity.
+  - destruct n; [simpl in Hn; lia|].
+    destruct (HA a (or_introl eq_refl)) as [Wa Pa].
+    destruct (pr_first a Wa) as (tok & ra & E & Fi & _).
+    rewrite pr_args_cons. napp. rewrite E. cbn [app].
+    rewrite list_loop_first by exact Fi.
+    change (expression_d (S d)) with (L d 0) at 1.
+    replace (tok :: ra ++ tailp r ++ TRBracket :: rest) with (pr a ++ tailp r ++ TRBracket :: rest)
+      by (rewrite E; reflexivity).
+    assert (HA' : forall b, In b r -> wf b = true /\ P d b 0) by (intros b Hb; apply HA; right; exact Hb).
+    rewrite Pa.
+    + cbn [bind]. destruct r as [|b r'].
+      * cbn [tailp app skip_empty_lines].
+        assert (Hl : S (length (pr_args [] ++ TRBracket :: rest)) <= n).
+        { rewrite pr_args_cons in Hn. cbn [tailp] in Hn. rewrite !app_length in Hn. rewrite E in Hn. simpl in *. lia. }
+        pose proof (IH rest (acc ++ [desugar a]) n HA' Hl) as IH1. cbn [pr_args app] in IH1.
+        rewrite IH1. cbn [map]. rewrite <- app_assoc. reflexivity.
+      * cbn [tailp app skip_empty_lines].
+        destruct (HA' b (or_introl eq_refl)) as [Wb _].
+        destruct (pr_first b Wb) as (tokb & rb & Eb & Fib & _).
+        rewrite <- (pr_args_cons b r').
+        assert (Sk : skip_empty_lines (pr_args (b :: r') ++ TRBracket :: rest) = pr_args (b :: r') ++ TRBracket :: rest).
+        { rewrite pr_args_cons, Eb. cbn [app]. apply skip_first. exact Fib. }
+        replace (pr b ++ tailp r' ++ TRBracket :: rest) with (pr_args (b :: r') ++ TRBracket :: rest)
+          by (rewrite pr_args_cons, <- app_assoc; reflexivity).
+        rewrite Sk.
+        rewrite (IH rest (acc ++ [desugar a]) n HA'); [rewrite <- app_assoc; reflexivity|].
+        rewrite (pr_args_cons a (b :: r')) in Hn. cbn [tailp] in Hn. rewrite !app_length in Hn. cbn [length] in Hn.
+        rewrite !app_length in Hn. rewrite E in Hn. rewrite pr_args_cons. rewrite !app_length. cbn [length] in *. lia.
+    + destruct r; cbn [tailp app]; apply follow_tok; simpl; auto.
+Qed.
+
+Lemma own_list : forall d es, (forall a, In a es -> wf a = true /\ P d a 0) -> P (S d) (SList es) 16.
+Proof.
+  intros d es HA rest F. rewrite pr_list. napp. unfold L. cbn [primary desugar].
+  assert (Sk : skip_empty_lines (pr_args es ++ TRBracket :: rest) = pr_args es ++ TRBracket :: rest).
+  { destruct es as [|a r]; [reflexivity|].
+    destruct (HA a (or_introl eq_refl)) as [Wa _]. destruct (pr_first a Wa) as (tok & ra & E & Fi & _).
+    rewrite pr_args_cons, E. cbn [app]. apply skip_first. exact Fi. }
+  rewrite Sk. rewrite list_loop_ok; [reflexivity|exact HA|lia].
+Qed.
+
+Lemma struct_loop_ok : forall d name fs rest acc n,
+  (forall f a, In (f, a) fs -> wf a = true /\ P d a 0) ->
+  S (length (pr_fields fs ++ TRCurly :: rest)) <= n ->
+  struct_loop (expression_d (S d)) n name acc (pr_fields fs ++ TRCurly :: rest)
+  = Ok (EStruct name (acc ++ map (fun fe => (fst fe, desugar (snd fe))) fs)) rest.
+Proof.
+  induction fs as [|[f a] r IH]; intros rest acc n HA Hn.
+  - destruct n; [simpl in Hn; lia|]. simpl. rewrite app_nil_r. reflexivity.
+  - destruct n; [simpl in Hn; lia|].
+    destruct (HA f a (or_introl eq_refl)) as [Wa Pa].
+    destruct (pr_first a Wa) as (tok & ra & E & Fi & _).
+    assert (HA' : forall g b, In (g, b) r -> wf b = true /\ P d b 0) by (intros g b Hb; eapply HA; right; exact Hb).
+    cbn [pr_fields]. napp. cbn [struct_loop skip_empty_lines].
+    assert (Sk : forall X, skip_empty_lines (pr a ++ X) = pr a ++ X).
+    { intros X. rewrite E. cbn [app]. apply skip_first. exact Fi. }
+    rewrite Sk. change (expression_d (S d)) with (L d 0) at 1.
+    rewrite Pa.
+    + cbn [bind]. destruct r as [|[g b] r'].
+      * cbn [app skip_empty_lines].
+        assert (Hl : S (length (pr_fields [] ++ TRCurly :: rest)) <= n).
+        { cbn [pr_fields] in Hn. rewrite !app_length in Hn. rewrite E in Hn. simpl in *. lia. }
+        pose proof (IH rest (acc ++ [(f, desugar a)]) n HA' Hl) as IH1. cbn [pr_fields app] in IH1.
+        rewrite IH1. cbn [map fst snd]. rewrite <- app_assoc. reflexivity.
+      * cbn [app skip_empty_lines].
+        replace (skip_empty_lines (pr_fields ((g, b) :: r') ++ TRCurly :: rest))
+          with (pr_fields ((g, b) :: r') ++ TRCurly :: rest) by reflexivity.
+        rewrite (IH rest (acc ++ [(f, desugar a)]) n HA'); [cbn [map fst snd]; rewrite <- app_assoc; reflexivity|].
+        cbn [pr_fields] in Hn. rewrite E in Hn. repeat first [rewrite app_length in * | progress (cbn [length pr_fields app] in * )]. lia.
+    + destruct r as [|[g b] r']; cbn [app]; apply follow_tok; simpl; auto.
+Qed.
+
+Lemma own_struct : forall d name fs, (forall f a, In (f, a) fs -> wf a = true /\ P d a 0) ->
+  P (S d) (SStruct name fs) 16.
+Proof.
+  intros d name fs HA rest F. rewrite pr_struct. napp. unfold L. cbn [primary desugar].
+  assert (Sk : skip_empty_lines (pr_fields fs ++ TRCurly :: rest) = pr_fields fs ++ TRCurly :: rest).
+  { destruct fs as [|[f a] r]; reflexivity. }
+  rewrite Sk. rewrite struct_loop_ok; [reflexivity|exact HA|lia].
 Qed.
 
 Lemma follow16 : forall t tok r, contlvl tok <> Some 16 -> follow 16 t (tok :: r) = true.
@@ -700,6 +820,18 @@ Proof.
     destruct d as [|d]; [lia|].
     destruct (IHn t ltac:(lia) W d ltac:(lia)) as [Pe _].
     apply close; [exact W0 | apply own_paren; apply Pe; lia | apply no_loop; reflexivity].
+  - (* SList *)
+    destruct d as [|d]; [lia|].
+    apply close; [exact W0 | | apply no_loop; reflexivity].
+    apply own_list. intros a Ha. pose proof (size_in a es Ha). pose proof (depth_in a es Ha).
+    assert (Wa : wf a = true) by (eapply forallb_forall in W; eauto).
+    split; [exact Wa|]. destruct (IHn a ltac:(lia) Wa d ltac:(lia)) as [Pa _]. apply Pa. lia.
+  - (* SStruct *)
+    destruct d as [|d]; [lia|].
+    apply close; [exact W0 | | apply no_loop; reflexivity].
+    apply own_struct. intros f a Ha. pose proof (size_in_fields f a fields Ha). pose proof (depth_in_fields f a fields Ha).
+    assert (Wa : wf a = true) by (eapply forallb_forall in W; [|exact Ha]; exact W).
+    split; [exact Wa|]. destruct (IHn a ltac:(lia) Wa d ltac:(lia)) as [Pa _]. apply Pa. lia.
   - (* SCall *)
     destruct d as [|d]; [lia|].
     destruct (IHn t ltac:(lia) ltac:(assumption) (S d) ltac:(lia)) as [_ Lf].
@@ -777,6 +909,28 @@ Proof.
   lia.
 Qed.
 
+Lemma depth_args : forall args, (forall a, In a args -> depth a <= length (pr a)) ->
+  list_max (map depth args) <= length (pr_args args).
+Proof.
+  intros [|a r] Hin; [simpl; lia|]. rewrite pr_args_cons, app_length.
+  change (list_max (map depth (a :: r))) with (Nat.max (depth a) (list_max (map depth r))).
+  pose proof (Hin a (or_introl eq_refl)).
+  pose proof (depth_tailp r (fun b Hb => Hin b (or_intror Hb))). lia.
+Qed.
+
+Lemma depth_fields : forall fs, (forall f a, In (f, a) fs -> depth a <= length (pr a)) ->
+  list_max (map (fun fe => depth (snd fe)) fs) <= length (pr_fields fs).
+Proof.
+  induction fs as [|[f a] r IH]; intros Hin; [simpl; lia|].
+  change (list_max (map (fun fe => depth (snd fe)) ((f, a) :: r)))
+    with (Nat.max (depth a) (list_max (map (fun fe => depth (snd fe)) r))).
+  cbn [pr_fields length]. rewrite app_length.
+  pose proof (Hin f a (or_introl eq_refl)).
+  assert (list_max (map (fun fe => depth (snd fe)) r) <= length (pr_fields r))
+    by (apply IH; intros g b Hb; eapply Hin; right; exact Hb).
+  destruct r; simpl in *; lia.
+Qed.
+
 Lemma depth_le_len : forall n t, size t < n -> depth t <= length (pr t).
 Proof.
   induction n; intros t Hs; [lia|].
@@ -784,15 +938,21 @@ Proof.
     try (pose proof (IHn t ltac:(lia)); simpl; rewrite ?app_length; simpl; lia);
     try (pose proof (IHn t1 ltac:(lia)); pose proof (IHn t2 ltac:(lia)); simpl; rewrite ?app_length; simpl;
          rewrite ?app_length; simpl; lia).
+  - (* SList *)
+    rewrite pr_list. cbn [depth length]. rewrite app_length. cbn [length].
+    assert (list_max (map depth es) <= length (pr_args es)).
+    { apply depth_args. intros b Hb. apply IHn. pose proof (size_in b es Hb). lia. }
+    lia.
+  - (* SStruct *)
+    rewrite pr_struct. cbn [depth length]. rewrite app_length. cbn [length].
+    assert (list_max (map (fun fe => depth (snd fe)) fields) <= length (pr_fields fields)).
+    { apply depth_fields. intros f b Hb. apply IHn. pose proof (size_in_fields f b fields Hb). lia. }
+    lia.
   - (* SCall *)
     rewrite pr_call. cbn [depth]. rewrite !app_length. cbn [length]. rewrite app_length. cbn [length].
     pose proof (IHn t ltac:(lia)).
     assert (list_max (map depth args) <= length (pr_args args)).
-    { destruct args as [|a r]; [simpl; lia|]. rewrite pr_args_cons, app_length. cbn [map list_max].
-      assert (Hin : forall b, In b (a :: r) -> depth b <= length (pr b)).
-      { intros b Hb. apply IHn. pose proof (size_in b (a :: r) Hb). lia. }
-      pose proof (Hin a (or_introl eq_refl)).
-      pose proof (depth_tailp r (fun b Hb => Hin b (or_intror Hb))). change (list_max (depth a :: map depth r)) with (Nat.max (depth a) (list_max (map depth r))). lia. }
+    { apply depth_args. intros b Hb. apply IHn. pose proof (size_in b args Hb). lia. }
     lia.
   - (* SIf *)
     pose proof (IHn t1 ltac:(lia)); pose proof (IHn t2 ltac:(lia)); pose proof (IHn t3 ltac:(lia)).
